@@ -1,6 +1,6 @@
 (** C17 - memory is bounded by sqrt(stop) and the sieve size, not by the interval length; it is freed. *)
 From Coq Require Import NArith List Bool.
-From PS Require Import Spec.Primes Model.PrimeGen Model.Mem Proofs.MemP Model.VecM Proofs.VecP.
+From PS Require Import Spec.Primes Model.PrimeGen Model.Mem Proofs.MemP Model.VecM Proofs.VecP Model.PoolM Proofs.PoolP.
 Local Open Scope N_scope.
 
 (** a forward iterator's prime buffer is never sized above 1024 entries, whatever primeCountUpper
@@ -27,3 +27,20 @@ Example C17_vector_example :
   vec_run (VPush :: VPush :: VPush :: VPush :: VPush :: VReserve 7 :: VResize 20 :: VClear :: nil) = (0, 20)
   /\ vec_high (0, 0) (VPush :: VPush :: VPush :: VPush :: VPush :: VReserve 7 :: VResize 20 :: VClear :: nil) = 20.
 Proof. split; vm_compute; reflexivity. Qed.
+
+(** the bucket pool (src/MemoryPool.cpp), for every history of addBucket / freeBucket, every
+    placement of the allocations (std::align may waste one bucket) and every maxCount =
+    MAX_ALLOC_BYTES / sizeof(Bucket) >= 73 (2048 in the pinned tree, compared on every run): no
+    bucket is ever lost (free list + buckets in use = all buckets allocated), and the pool owns at
+    most [peak number of buckets in use at once + maxCount] buckets; every allocation holds at most
+    maxCount buckets *)
+Theorem C17_memory_pool_bounded : forall maxCount, 73 <= maxCount -> forall ops,
+  let p := pool_run maxCount ops in
+  stock p + inuse p = total p /\ inuse p <= peak p /\ total p < peak p + maxCount + 1 /\ count p <= maxCount.
+Proof. exact pool_bounded. Qed.
+Print Assumptions C17_memory_pool_bounded.
+
+Example C17_memory_pool_example :
+  let p := pool_run 2048 (repeat (PAdd false) 75 ++ repeat PFree 3) in
+  (nalloc p, count p, stock p, inuse p, total p, peak p) = (2, 18, 19, 72, 91, 75).
+Proof. vm_compute. reflexivity. Qed.
